@@ -22,6 +22,7 @@ import (
 	"pgregory.net/rapid"
 
 	"verif/internal/ctfex"
+	"verif/internal/derx"
 	"verif/internal/harness"
 	"verif/internal/keys"
 	"verif/internal/pki"
@@ -248,6 +249,10 @@ type ChainKind struct {
 	// second earlier, 2 equal, 3 one second LATER, 4 one year LATER. Admission window and shard choice
 	// depend on NotAfter alone, so the other end of the validity period must not matter to either side.
 	NB int `json:",omitempty"`
+	// Quirk gives the leaf a defect the lenient X.509 parser reports as a NON-FATAL error (the front end
+	// accepts such certificates): 1 a SAN with a 5-octet iPAddress, 2 an embedded SCT-list extension whose
+	// TLS structure is malformed (certificates only). The window applies to them like to any leaf.
+	Quirk int `json:",omitempty"`
 }
 
 var nbOffsets = []time.Duration{-90 * 24 * time.Hour, -time.Second, 0, time.Second, 365 * 24 * time.Hour}
@@ -258,6 +263,12 @@ func genChainKind(t *rapid.T) ChainKind {
 		k = ChainKind{Root: k.Root, Lone: true}
 	} else if rapid.IntRange(0, 3).Draw(t, "nbodd") == 0 {
 		k.NB = rapid.IntRange(1, 4).Draw(t, "nb")
+	}
+	if !k.Lone && rapid.IntRange(0, 4).Draw(t, "quirky") == 0 {
+		k.Quirk = 1
+		if !k.Precert && rapid.Bool().Draw(t, "quirk2") {
+			k.Quirk = 2
+		}
 	}
 	return k
 }
@@ -387,6 +398,9 @@ func chainFor(sec int64, k ChainKind) *chain {
 	if k.NB < 0 || k.NB >= len(nbOffsets) {
 		k.NB = 0
 	}
+	if k.Quirk < 0 || k.Quirk > 2 || k.Lone || (k.Quirk == 2 && k.Precert) {
+		k.Quirk = 0
+	}
 	if sec < minCert || sec > maxCert {
 		panic(fmt.Sprintf("c18: NotAfter %d outside the certificate range", sec))
 	}
@@ -428,6 +442,7 @@ func chainFor(sec int64, k ChainKind) *chain {
 	serial := new(big.Int).SetInt64(sec - minCert + 1)
 	serial.Lsh(serial, 4).Add(serial, big.NewInt(int64(k.Root*4)+b2i(k.Inter)*2+b2i(k.Precert)))
 	serial.Lsh(serial, 3).Add(serial, big.NewInt(int64(k.NB%len(nbOffsets))))
+	serial.Lsh(serial, 2).Add(serial, big.NewInt(int64(k.Quirk&3)))
 	t := pki.LeafTemplate(cn, lk, 1, pki.KeyID(issuer.Key))
 	t.Serial = serial
 	na := time.Unix(sec, 0).UTC()
@@ -435,6 +450,17 @@ func chainFor(sec int64, k ChainKind) *chain {
 	t.NotBefore = na.Add(nbOffsets[k.NB%len(nbOffsets)])
 	if end := time.Unix(maxCert, 0).UTC(); t.NotBefore.After(end) {
 		t.NotBefore = end // year 9999 is the last an X.509 time can name
+	}
+	switch k.Quirk {
+	case 1:
+		for i, e := range t.Exts {
+			if pki.OIDEq(e.OID, pki.OIDExtSAN) {
+				t.Exts[i] = pki.Ext{OID: pki.OIDExtSAN, Value: derx.Seq(derx.TLV(0x82, []byte(cn+".example.com")), derx.TLV(0x87, []byte{10, 0, 0, 1, 9}))}
+			}
+		}
+	case 2:
+		// list length says 5 octets, 3 follow
+		t.Exts = append(t.Exts, pki.SCTList([]byte{0, 5, 0, 1, 7}))
 	}
 	if k.Precert {
 		t.Exts = append([]pki.Ext{pki.Poison()}, t.Exts...)
@@ -454,6 +480,10 @@ func chainFor(sec int64, k ChainKind) *chain {
 	}
 	if got := path[0].NotAfter; got.Unix() != sec || got.Nanosecond() != 0 {
 		panic(fmt.Sprintf("c18: generated leaf parses with NotAfter %v, want unix %d", got, sec))
+	}
+	// the quirk is what it is meant to be: a finding of the parser, but not a fatal one
+	if _, perr := x509.ParseCertificate(leaf.DER); (perr != nil) != (k.Quirk != 0) || x509.IsFatal(perr) {
+		panic(fmt.Sprintf("c18: generated leaf (%+v) parses with error %v; want a non-fatal error exactly for quirky leaves", k, perr))
 	}
 	leafCache[key] = c
 	return c
@@ -530,5 +560,8 @@ func chainClasses(v *harness.Verdict, k ChainKind) {
 		v.Class("chain:notbefore-after-notafter")
 	case k.NB > 0:
 		v.Class("chain:notbefore-at-notafter")
+	}
+	if k.Quirk != 0 {
+		v.Class(fmt.Sprintf("chain:nonfatal-parse-finding-%d", k.Quirk))
 	}
 }
